@@ -147,18 +147,31 @@ class C03(Spec):
         "bpc_eq_gainAt", "interp_ramp_closed_form", "ceil_eq_ceilQ", "obj_all_spec", "fixed_all_spec", "bpc_run_spec",
         "C03_gain_timeline", "C03_silence_outside_blocks", "gainAt_silent_iff", "C03_sum_of_items_linear",
         "C03_render_formula", "C03_direct_zero_latency", "C03_diffuse_group_delay", "exBlocks_accepted",
-        "exSession_ok")) + ("Earverif.Renderer.render_refines_spec", "Earverif.Stream.vbs_fir_eq",
-                            "Earverif.Stream.aligner_run_eq") + tuple("Earverif.RendererTS." + t for t in (
+        "exSession_ok", "C03_render_formula_os", "out_add", "out_smul", "C03_linear_in_input", "exSession_wf")) + (
+        "Earverif.RenderSpec.outAt_add", "Earverif.RenderSpec.outAt_smul",
+        "Earverif.Renderer.renderTrace_eq", "Earverif.Renderer.renderTraceOS_eq",
+        "Earverif.RendererTS.renderTraceTS_eq", "Earverif.RendererTS.renderTraceTSOS_eq",
+        "Earverif.Renderer.render_refines_spec", "Earverif.Stream.vbs_fir_eq", "Earverif.Stream.aligner_run_eq",
+        # round 7: the overlap-save convolver inside the model (Proofs/C02OverlapSave.lean)
+        "Earverif.Stream.overlapSave_eq_fir", "Earverif.Stream.vbs_overlapSave_eq",
+        "Earverif.Renderer.renderAllOS_eq", "Earverif.Renderer.render_refines_spec_os",
+        "Earverif.RendererTS.renderAllTSOS_eq", "Earverif.RendererTS.render_eq_outTS_os") + tuple(
+        "Earverif.RendererTS." + t for t in (
         "render_refines_spec_ts", "render_eq_outTS", "out_itemStreams", "C03_render_formula_ts", "C03_item_audio_ts",
-        "C03_coefficient_delay_ts", "C03_direct_spec_ts", "exSessionTS_ok"))
+        "C03_coefficient_delay_ts", "C03_direct_spec_ts", "exSessionTS_ok", "C03_render_formula_ts_os",
+        "exSessionTS_wf"))
     HYPOTHESES_NOTE = (
         "theorems still stated with component facts as hypotheses: none - C03_render_formula (out[s] = direct(s) + "
         "sum_k f[k] diffuse(s+(N-1)//2-k) + ds(s) + hoa(s) for every blocking) rests on render_refines_spec, proved "
         "outright under SessionOK (block_size >= 1, accepted timelines); round 4: C03_render_formula_ts (the same "
         "formula with every item's audio = meaning(track spec), incl. C03_coefficient_delay_ts: a coefficient delay of "
         "d samples delays the item's audio by exactly d samples) rests on render_refines_spec_ts, proved outright under "
-        "SessionOKTS (SessionOK + C20 Spec.wf + HOA items with >= 1 spec). Not under the kernel: FFT convolver (FIR "
-        "stand-in), gain calculators (captured).")
+        "SessionOKTS (SessionOK + C20 Spec.wf + HOA items with >= 1 spec). Round 7: C03_render_formula_os / "
+        "C03_render_formula_ts_os state the same formula for the renderer model with the partitioned overlap-save "
+        "convolver inside (extra hypothesis: the decorrelation filter has >= 1 tap), from overlapSave_eq_fir / "
+        "vbs_overlapSave_eq / renderAllOS_eq. Not under the kernel: the transform pair rfft/irfft (convolution theorem + "
+        "linearity = the stated abstraction of Model/OverlapSave.lean, validated numerically by the C02 check), gain "
+        "calculators (captured).")
     trusted_base = c02.C02.trusted_base + (
         "specification Earverif/Model/RenderSpec.lean (gainAt/out) written from the property text; compared with "
         "the real Renderer on every run; the search reference (harness/c03.py: reference) is a second, "
@@ -239,38 +252,49 @@ class C03(Spec):
 SPEC = C03()
 
 REGISTRY = dict(
-    text="FULL: Lean theorem Earverif.Timeline.C03_render_formula (from Earverif.Renderer.render_refines_spec) proves "
-    "that for every configuration with block_size >= 1, every mix of accepted items, every input and every blocking the "
-    "model of Renderer.render/get_tail returns, at every output sample s, direct(s) + sum_k f[k]*diffuse(s+(N-1)//2-k) + "
-    "ds(s) + hoa(s), each term the exact sum over items of input sample x gainAt(s); gainAt is the sample-by-sample "
+    text="FULL: Lean theorems Earverif.Timeline.C03_render_formula_os and Earverif.RendererTS.C03_render_formula_ts_os "
+    "(from render_refines_spec_os / render_eq_outTS_os) prove that for every session in the stated quantifier (SessionWF: "
+    "block_size >= 1, accepted timelines, track indices inside the input, HOA matrices as wide as the item has tracks, "
+    "decorrelation filter with >= 1 tap; InputOK: frames of n_in samples), every input and every blocking the model of "
+    "Renderer.render/get_tail returns, at every output sample s, direct(s) + sum_k f[k]*diffuse(s+(N-1)//2-k) + ds(s) + "
+    "hoa(s), each term the exact sum over items of input sample x gainAt(s); gainAt is the sample-by-sample "
     "specification (constant within a block, linear ramp p=(s-start*fs)/((target-start)*fs) over the interpolation "
-    "period of a contiguous block, silence outside blocks). Component theorems: bpc_eq_gainAt (BlockProcessingChannel + "
-    "InterpretObjectMetadata for all partitions and accepted timelines, no underrun), fixed_all_spec (DirectSpeakers/HOA "
-    "interpreters), interp_ramp_closed_form, ceil_eq_ceilQ, obj_all_spec; corollaries C03_gain_timeline, "
-    "C03_silence_outside_blocks, C03_direct_zero_latency, C03_diffuse_group_delay, C03_sum_of_items_linear. The real "
-    "Renderer is compared on every run with the Lean specification RenderSpec.out (exact rationals) and with the "
-    "transliterated model, and the search compares it with an independent numpy reference written from the property text. "
-    "Round 4 - track processors are now INSIDE the model (Earverif/Model/RendererTS.lean: every Objects/DirectSpeakers "
-    "item carries a TrackSpec.Spec, every HOA item a list, processed by the C20 processor state machine inside each "
-    "render call and get_tail): Earverif.RendererTS.C03_render_formula_ts (from render_refines_spec_ts / "
-    "render_eq_outTS) proves for every blocking out[s] = sum_obj direct_gains(s)*y(s) + sum_k f[k]*(sum_obj "
-    "diffuse_gains*y)(s+(N-1)//2-k) + sum_ds gains(s)*y(s) + sum_hoa M(s)*(y_1(s)..y_m(s)) with y = sAt = the literal "
-    "meaning of the item's track spec (inputs summed, scaled, delayed) on the input followed by the tail's silence; "
-    "C03_item_audio_ts: inside the input y(t) = meaning(spec)(x)(t) (zero extra latency); C03_coefficient_delay_ts: a "
-    "matrix coefficient delay of d = round(fs*ms/1000) samples gives y_delayed(t) = y_undelayed(t-d) at every t up to "
-    "the end of the tail, i.e. the item's contribution to every term is delayed by exactly d samples (and a delayed "
-    "input keeps feeding the decorrelator look-ahead after the last input frame); C03_direct_spec_ts: DirectTrackSpec "
-    "gives back C03_render_formula. Kernel-evaluated example exSessionTS_ok (mix of two inputs, one through a matrix "
-    "coefficient with gain 1/2 and a 2-sample delay; gain over a delayed input; MultiTrackProcessor with a silent spec). "
-    "The real Renderer with items constructed with generated mix/gain/matrix-coefficient(delay)/silent/nested track "
-    "specs is compared with RendererTS.outTS (spects), with the extended model (runts) and with the numpy reference "
-    "extended by an independent spec_audio.",
+    "period of a contiguous block, silence outside blocks). WHAT THE DIFFUSE FILTER IS IN THE THEOREM: the model "
+    "contains the partitioned overlap-save convolver of ear/core/convolver.py behind the VariableBlockSizeAdapter "
+    "(Model/OverlapSave.lean: filter partitions, input_block halves, rotating queue of accumulators, first half of "
+    "slot 0 returned); its structure is PROVED equal to the linear FIR convolution with the decorrelation filter "
+    "(overlapSave_eq_fir, vbs_overlapSave_eq: delayed by block_size, which the direct path's Delay and the "
+    "BlockAligner offset compensate together with the group delay (N-1)//2); the transform pair is not modelled: the "
+    "convolution theorem for numpy's rfft/irfft of length 2*block_size and linearity of irfft are ASSUMED (a spectrum is "
+    "represented by its inverse transform, spectral multiply-accumulate by adding a circular convolution) and validated "
+    "numerically on every C02 run against exact integer circular convolutions (1e-9). C03_render_formula / "
+    "C03_render_formula_ts are the same formulas for the model with the direct-form FIR stand-in (renderAllOS_eq / "
+    "renderAllTSOS_eq: the two models return the same for every session). Linearity: outAt_add / outAt_smul (the "
+    "specified sample is additive and homogeneous in the input frames, any LawfulRMod frame type), out_add / out_smul, "
+    "and C03_linear_in_input (rendering x+y in any blocking = frame-wise sum of the renderings of x and y in any "
+    "blockings; rendering a*x = a times the rendering of x). Component theorems: bpc_eq_gainAt (BlockProcessingChannel + "
+    "InterpretObjectMetadata for all partitions and accepted timelines, no underrun), fixed_all_spec, "
+    "interp_ramp_closed_form, ceil_eq_ceilQ, obj_all_spec; corollaries C03_gain_timeline, C03_silence_outside_blocks, "
+    "C03_direct_zero_latency, C03_diffuse_group_delay, C03_sum_of_items_linear (component level). With track processors "
+    "(Model/RendererTS.lean + the overlap-save variant): y = sAt = the literal meaning of the item's track spec on the "
+    "input followed by the tail's silence; C03_item_audio_ts (zero extra latency), C03_coefficient_delay_ts (a matrix "
+    "coefficient delay of d samples delays the item's contribution to every term by exactly d samples, also in the "
+    "decorrelator look-ahead), C03_direct_spec_ts. renderTrace_eq / renderTraceOS_eq / renderTraceTS_eq / "
+    "renderTraceTSOS_eq link the functions the driver runs to renderAll*. Kernel-evaluated examples exSession_ok / "
+    "exSession_wf / exSessionTS_ok / exSessionTS_wf with instances of the theorems. The real Renderer is compared on "
+    "every run with the Lean specification RenderSpec.out / outTS (exact rationals), with both transliterated models "
+    "(FIR and overlap-save; run/runts, runos/runtsos), and the search compares it with an independent numpy reference "
+    "written from the property text (with spec_audio for track specs).",
     note="Trusted: Lean kernel; hand transliteration + correspondence harness; captured gains (gain calculators are other "
-    "properties); FFT convolver modelled as FIR (tied by correspondence). Quantifier limits: durations and "
-    "interpolationLength >= 0, start >= 0 (negative start raises 'metadata underrun' in the real code); track specs "
-    "satisfying C20's Spec.wf (indices within the input channels, delays rounding to >= 0 samples; generated delays stay "
-    "off rounding ties), HOA items with >= 1 spec, one sample rate per session.",
-    technique="Lean 4 refinement proof of the composed renderer against a sample-by-sample specification + differential "
-    "correspondence of model and specification with the real Renderer + independent numpy reference",
+    "properties); numpy rfft/irfft convolution theorem + linearity (assumed, numerically validated by the C02 check). "
+    "Quantifier limits: durations and interpolationLength >= 0, start >= 0 (negative start raises 'metadata underrun' in "
+    "the real code); track indices < n_in, HOA matrices of the right width, frames of n_in samples (the models index "
+    "with defaults where numpy raises; explicit as IndexOK/InputOK in the *_os theorems); track specs satisfying C20's "
+    "Spec.wf (generated delays stay off rounding ties), HOA items with >= 1 spec, one sample rate per session, filter "
+    "with >= 1 tap. C03_linear_in_input is proved for items with direct tracks (Model/Renderer + overlap-save), not "
+    "restated for track specs.",
+    technique="Lean 4 refinement proof of the composed renderer (incl. the partitioned overlap-save convolver structure) "
+    "against a sample-by-sample specification + linearity of the specification + differential correspondence of model "
+    "and specification with the real Renderer + independent numpy reference",
     design_ref="DESIGN.md section 4, C02/C03",
 )
